@@ -102,6 +102,22 @@ Lemma table_panics_abort :
   forallb (fun m => negb (pm_defers m)) methods = true.
 Proof. repeat split. Qed.
 
+(* the sign tests of the argument validation are the ones the model's guards transcribe (M_Precompile.method_run:
+   approveShares refuses sh < 0; every transfer / delegate / undelegate / redelegate amount, pool id, fee increase and
+   claim nonce is refused when <= 0; crossChain refuses amount <= 0 and fee < 0). Accepting a zero amount would let a
+   caller with no allowance (a never-granted allowance reads 0) run transferFromShares on anybody's delegation. *)
+Lemma arg_sign_checks_expected :
+  arg_sign_checks =
+  [("ApproveSharesArgs", "Shares", "<", "0"); ("DelegateV2Args", "Amount", "<=", "0");
+   ("RedelegateArgs", "Shares", "<=", "0"); ("RedelegateV2Args", "Amount", "<=", "0");
+   ("TransferSharesArgs", "Shares", "<=", "0"); ("TransferFromSharesArgs", "Shares", "<=", "0");
+   ("UndelegateArgs", "Shares", "<=", "0"); ("UndelegateV2Args", "Amount", "<=", "0");
+   ("CancelSendToExternalArgs", "TxID", "<=", "0"); ("CrossChainArgs", "Amount", "<=", "0");
+   ("CrossChainArgs", "Fee", "<", "0"); ("IncreaseBridgeFeeArgs", "TxID", "<=", "0");
+   ("IncreaseBridgeFeeArgs", "Fee", "<=", "0"); ("BridgeCallArgs", "Value", "!=", "0");
+   ("ExecuteClaimArgs", "EventNonce", "<=", "0")]%string.
+Proof. reflexivity. Qed.
+
 (* the acting identity is contract.Caller(); evm.Origin only ever flows into event constructors *)
 Lemma table_identities :
   forallb (fun m => pm_readonly m ||
